@@ -5,6 +5,7 @@
 package main
 
 import (
+	"context"
 	"errors"
 	"fmt"
 	"io"
@@ -15,9 +16,11 @@ import (
 	"github.com/sirupsen/logrus"
 
 	"github.com/taskctl/taskctl/internal/vh/common"
-	"github.com/taskctl/taskctl/vrt"
 	"github.com/taskctl/taskctl/pkg/scheduler"
 	"github.com/taskctl/taskctl/pkg/task"
+	"github.com/taskctl/taskctl/pkg/variables"
+	"github.com/taskctl/taskctl/vrt"
+	"mvdan.cc/sh/v3/interp"
 )
 
 // ---- enumeration of configurations ----
@@ -132,9 +135,17 @@ type fakeRunner struct {
 }
 
 func (r *fakeRunner) Run(t *task.Task) error {
+	key := t.Name
+	if r.cfg.Shared {
+		key, _ = t.Env.Get("STAGE").(string)
+		if key == "" {
+			vrt.Fail("C08|shared task reached the runner without its stage's env entry")
+			return errors.New("no stage")
+		}
+	}
 	// C01, checked at the very moment the task is handed to the runner: every dependency of the
 	// stage has published a final status.
-	for _, d := range r.deps[t.Name] {
+	for _, d := range r.deps[key] {
 		st := r.stages[d]
 		if st == nil {
 			continue
@@ -143,17 +154,27 @@ func (r *fakeRunner) Run(t *task.Task) error {
 		case scheduler.StatusDone, scheduler.StatusSkipped:
 		case scheduler.StatusError:
 			if !st.AllowFailure {
-				vrt.Fail("C01|%s started while dependency %s has failed", t.Name, d)
+				vrt.Fail("C01|%s started while dependency %s has failed", key, d)
 			}
 		default:
 			vrt.Fail("C01|%s started while dependency %s has status %d", t.Name, d, st.Status)
 		}
 	}
-	vrt.Emit("start", t.Name)
-	vrt.Park("run:" + t.Name)
-	vrt.Emit("end", t.Name)
-	if r.fail[t.Name] {
-		return errors.New("task " + t.Name + " failed")
+	vrt.Emit("start", key)
+	vrt.Park("run:" + key)
+	vrt.Emit("end", key)
+	if r.fail[key] {
+		switch r.cfg.ErrKind {
+		case 1:
+			return context.DeadlineExceeded
+		case 2:
+			return context.Canceled
+		case 3:
+			return fmt.Errorf("task %s: %w", key, context.DeadlineExceeded)
+		case 4:
+			return interp.NewExitStatus(3)
+		}
+		return errors.New("task " + key + " failed")
 	}
 	return nil
 }
@@ -171,12 +192,16 @@ func build(cfg *Cfg) (*built, error) {
 	b := &built{stages: map[string]*scheduler.Stage{}}
 	r := &fakeRunner{cfg: cfg, stages: b.stages, fail: map[string]bool{}, deps: map[string][]string{}, allow: map[string]bool{}}
 	b.runner = r
+	var shared *task.Task
 	var mk func(g *GraphCfg, outerDeps []string) (*scheduler.ExecutionGraph, error)
 	mk = func(g *GraphCfg, outerDeps []string) (*scheduler.ExecutionGraph, error) {
 		var sts []*scheduler.Stage
 		for _, i := range topo(g) {
 			s := g.Stages[i]
-			st := &scheduler.Stage{Name: s.Name, Condition: s.Cond, DependsOn: append([]string{}, s.Deps...), AllowFailure: s.Allow}
+			st := &scheduler.Stage{Name: cfg.aliasOf(s.Name), Condition: s.Cond, AllowFailure: s.Allow}
+			for _, d := range s.Deps {
+				st.DependsOn = append(st.DependsOn, cfg.aliasOf(d))
+			}
 			all := append(append([]string{}, outerDeps...), s.Deps...)
 			if s.Inner != nil {
 				ig, err := mk(s.Inner, all)
@@ -185,8 +210,17 @@ func build(cfg *Cfg) (*built, error) {
 				}
 				st.Pipeline = ig
 			} else {
-				st.Task = task.FromCommands("true")
-				st.Task.Name = s.Name
+				if cfg.Shared {
+					if shared == nil {
+						shared = task.FromCommands("true")
+						shared.Name = "shared"
+					}
+					st.Task = shared
+					st.Env = variables.FromMap(map[string]string{"STAGE": s.Name})
+				} else {
+					st.Task = task.FromCommands("true")
+					st.Task.Name = s.Name
+				}
 				r.fail[s.Name] = s.Fail
 				r.deps[s.Name] = all
 			}
